@@ -65,6 +65,12 @@ func StdActions(w *World) []Action {
 	o := w.stdOpts()
 	var acts []Action
 	for ti := range w.Tors {
+		if name, held := w.MidHandler(ti); held {
+			ti := ti
+			acts = append(acts, Action{Label: "continue:" + name, Do: func(w *World) { w.Continue(ti) }})
+		}
+	}
+	for ti := range w.Tors {
 		if w.exited(ti) {
 			continue
 		}
